@@ -2,13 +2,13 @@
 //! deterministic, and survives every encoding of key, public key and signature.
 
 use crate::gen::{self, Content, CONTENTS};
-use crate::refimpl::{self, Scheme, RS, SCHEMES};
+use crate::refimpl::{self, Scheme, RG, RS, SCHEMES};
 use crate::suite::*;
 use crate::{for_both, hx, Ctx, Tier};
 use blsful::*;
 use serde_json::json;
 
-pub const RULE: &str = "grid: edge scalars E (1,2,3,r-1,r-2,2^254,2^255-19 mod r,(r-1)/2,hash-derived,random, plus 9 keys whose compressed public key ends with NUL/LF/CR/space/quote/backslash/DEL/0x80/0xff) x message length classes x contents x 3 schemes x 2 group assignments, plus seeded random (key,len<=1024) cases in the thorough tier. Per case: sign twice (determinism), sign with the same scalar under the OTHER group assignment in between and sign again (history independence), verify, reference CoreVerify on the same bytes, then sk through {be,le,Vec,serde_bare,serde_json} and through the curve-tagged SecretKeyEnum's {be,le,Vec,serde_bare,serde_json} must re-sign to the same bytes and sig' x pk' through {bytes,serde_bare,serde_json}^2 must verify. A case is distinct by (suite,scheme,sk,msg); non-trivial = signing succeeded and the pairing check was evaluated by both library and reference.";
+pub const RULE: &str = "grid: edge scalars E (1,2,3,r-1,r-2,2^254,2^255-19 mod r,(r-1)/2,hash-derived,random, plus 9 keys whose compressed public key ends with NUL/LF/CR/space/quote/backslash/DEL/0x80/0xff) x message length classes x contents x 3 schemes x 2 group assignments, plus seeded random (key,len<=1024) cases in the thorough tier. Per case: sign twice (determinism), sign with the same scalar under the OTHER group assignment in between and sign again (history independence), verify, reference CoreVerify on the same bytes, then sk through {be,le,Vec,serde_bare,serde_json} and through the curve-tagged SecretKeyEnum's {be,le,Vec,serde_bare,serde_json} must re-sign to the same bytes and sig' x pk' through {bytes,serde_bare,serde_json}^2 must verify. History clusters (4 quick / 24 thorough per group assignment): the 14 questions {sign, verify} x 3 schemes x 2 group assignments + proof of possession x 2 over one (key, message) are asked in every ordered pair (a,b) as the sequence a,b,b,a and every answer must equal the reference's (answers may depend on the arguments only, not on what was asked before). A case is distinct by (suite,scheme,sk,msg); non-trivial = signing succeeded and the pairing check was evaluated by both library and reference.";
 
 pub fn run(ctx: &mut Ctx) {
     for_both!(run_suite, ctx);
@@ -75,6 +75,59 @@ fn run_suite<C: Suite>(ctx: &mut Ctx) {
         }
         ctx.require(&format!("{}/{}/random", C::NAME, scheme.name()));
     }
+    // history clusters: all signers and verifiers of one (key, message) under every scheme and
+    // under both group assignments, asked in every ordered pair
+    ctx.require(&format!("{}/history", C::NAME));
+    let n_hist = ctx.tier.pick(4, 24);
+    for i in 0..n_hist {
+        g += 1;
+        if !ctx.mine(g) {
+            continue;
+        }
+        let mut rng = ctx.rng(g);
+        let sk = if i % 2 == 0 { edges[i / 2 % edges.len()].1 } else { gen::random_scalar(&mut rng) };
+        let len = [32usize, 0, 1, 129, 48, 96, 257, 33][i % 8];
+        let mut msg = gen::message(len, Content::Random, &mut rng);
+        if i % 4 == 2 {
+            // the message IS the key's public-key encoding: the proof of possession and the
+            // signatures then hash the same bytes under different tags
+            msg = pk_bytes(&sk_from_rs::<C>(&sk).public_key());
+        }
+        history_cluster::<C>(ctx, "C01", &sk, &msg);
+    }
+}
+
+/// Also used by C03 (the answers are the reference's bytes) under its own property id.
+pub fn history_cluster<C: Suite>(ctx: &mut Ctx, prop: &str, sk_rs: &RS, msg: &[u8]) {
+    use super::history::{q, sandwiches, Q};
+    let sk = sk_from_rs::<C>(sk_rs);
+    let osk = sk_from_rs::<C::Other>(sk_rs);
+    let pk = sk.public_key();
+    let opk = osk.public_key();
+    let mut qs: Vec<Q<Option<Vec<u8>>>> = Vec::new();
+    for scheme in SCHEMES {
+        let ls = lscheme(scheme);
+        let want = refimpl::sign::<C::R>(scheme, sk_rs, msg).enc();
+        let owant = refimpl::sign::<<C::Other as Suite>::R>(scheme, sk_rs, msg).enc();
+        let (skr, oskr) = (&sk, &osk);
+        qs.push(q(format!("sign/{}/{}", C::NAME, scheme.name()), Some(want.clone()), move || skr.sign(ls, msg).ok().map(|s| sig_pt_bytes(&s))));
+        qs.push(q(format!("sign/{}/{}", <C::Other as Suite>::NAME, scheme.name()), Some(owant.clone()), move || oskr.sign(ls, msg).ok().map(|s| sig_pt_bytes(&s))));
+        // the verifier on the signature the reference prescribes
+        let lsig = wrap_sig::<C>(scheme, super::util::ls::<C>(refimpl::sign::<C::R>(scheme, sk_rs, msg)));
+        let olsig = wrap_sig::<C::Other>(scheme, super::util::ls::<C::Other>(refimpl::sign::<<C::Other as Suite>::R>(scheme, sk_rs, msg)));
+        qs.push(q(format!("verify/{}/{}", C::NAME, scheme.name()), Some(vec![1]), move || Some(vec![lsig.verify(&pk, msg).is_ok() as u8])));
+        qs.push(q(format!("verify/{}/{}", <C::Other as Suite>::NAME, scheme.name()), Some(vec![1]), move || Some(vec![olsig.verify(&opk, msg).is_ok() as u8])));
+    }
+    {
+        let (skr, oskr) = (&sk, &osk);
+        qs.push(q(format!("pop/{}", C::NAME), Some(refimpl::pop_prove::<C::R>(sk_rs).enc()), move || skr.proof_of_possession().ok().map(|p| Vec::from(&p))));
+        qs.push(q(format!("pop/{}", <C::Other as Suite>::NAME), Some(refimpl::pop_prove::<<C::Other as Suite>::R>(sk_rs).enc()), move || oskr.proof_of_possession().ok().map(|p| Vec::from(&p))));
+    }
+    let skb = sk_rs.to_be_bytes();
+    let d = || json!({"sk_be":hex::encode(skb),"msg":hx(msg),"note":"sign/<suite>/<scheme> answers the signature bytes, verify/.. answers [1] for accepted, pop/<suite> the proof of possession"});
+    let mut id = skb.to_vec();
+    id.extend_from_slice(msg);
+    sandwiches(ctx, prop, &format!("{}/history", C::NAME), "sign-verify-pop", &id, &d, &qs);
 }
 
 fn one_case<C: Suite>(ctx: &mut Ctx, cell: &str, ename: &str, scheme: Scheme, sk_rs: &RS, msg: &[u8]) {
